@@ -174,6 +174,8 @@ def c12(ctx):
     gates.join_sib(ctx)
     gates.join_shape(ctx)
     gates.join_more(ctx)
+    from .rules import relational
+    relational.run(ctx)
     inv = inventory(prog)
     ctx.rule("PANIC(select)", PANIC_TEXT)
     entries = [prog.fn("msi::internal::query::Select::exec"), prog.fn("msi::internal::package::Package::<F>::select_rows")]
@@ -249,9 +251,12 @@ def c10(ctx):
     from .rules import propset
     propset.run(ctx)
     propset.summary_ids(ctx)
-    from .rules import flush
+    from .rules import flush, codepage
     flush.dirty2(ctx)
     flush.close2(ctx)
+    # summary strings are stored through CodePage::encode and read back through CodePage::decode
+    codepage.run(ctx)
+    codepage.flow_rules(ctx)
     n = panic_module(ctx, "PANIC(summary)", ("src/internal/propset.rs", "src/internal/summary.rs"),
                      lambda f: f.file in ("src/internal/summary.rs", "src/internal/propset.rs") and f.kind != "Closure",
                      "SummaryInfo::* and PropertySet::{read,write,set,..}")
